@@ -27,7 +27,7 @@ def install(eng):
         "reversed": N("reversed", _reversed), "slice": N("slice", lambda eng, *a: slice(*a)), "id": N("id", lambda eng, x: id(x)),
         "callable": N("callable", lambda eng, x: isinstance(x, (FuncV, Bound, NativeFn, ClassV, Ext))),
         "issubclass": N("issubclass", _issubclass), "frozenset": N("frozenset", lambda eng, x=(): frozenset(eng.iterate(x))),
-        "round": N("round", _round), "object": object, "super": None, "open": Ext("builtins.open"),
+        "round": N("round", _round), "bytes": N("bytes", _bytes), "object": object, "super": None, "open": Ext("builtins.open"),
         "None": None, "True": True, "False": False, "__name__": "__pyvc__", "NotImplemented": NotImplemented,
         "Ellipsis": Ellipsis,
     })
@@ -345,6 +345,10 @@ def _reversed(eng, it):
 def _isinstance(eng, x, t):
     ts = t if isinstance(t, tuple) else (t,)
     for c in ts:
+        if isinstance(c, HostObj) and hasattr(c, "instancecheck"):
+            if c.instancecheck(x):
+                return True
+            continue
         if isinstance(c, ClassV):
             if isinstance(x, Rec) and x.cls.issub(c):
                 return True
@@ -363,7 +367,7 @@ def _isinstance(eng, x, t):
             return True
         if isinstance(c, NativeFn):
             py = {"list": (list, SeqV), "tuple": tuple, "dict": dict, "str": str, "int": int, "float": float,
-                  "bool": bool, "set": set}.get(c.name)
+                  "bool": bool, "set": set, "bytes": bytes}.get(c.name)
             if py is not None:
                 if is_obj(x):
                     f = ufunc("isinstance:" + c.name, Obj, B)
@@ -520,6 +524,12 @@ def _str(eng, x=""):
     return str(x)
 
 
+def _bytes(eng, x=b"", *a):
+    if is_sym(x):
+        raise Unsupported("bytes() of a symbolic value")
+    return bytes(x, *a) if a else bytes(x)
+
+
 def _bool(eng, x=False):
     return eng.to_bool(x)
 
@@ -641,6 +651,7 @@ _Model.ext_models.update({
     "functools.reduce": _reduce,
     "operator.iadd": _op_iadd,
     "typing.cast": lambda eng, rec: rec.args[1],
+    "functools.wraps": lambda eng, rec: NativeFn("wraps-decorator", lambda f: f),     # metadata only
     "collections.Counter": lambda eng, rec: _counter(eng, *rec.args),      # typing.cast returns its second argument unchanged
     "tqdm.tqdm": lambda eng, rec: rec.args[0],         # identity on its iterable (DESIGN 2.1)
 })
